@@ -330,6 +330,82 @@ def check_hour24_last_day(case):
     return None
 
 
+EMBEDDED = ["ld<uuuu'-'MM'-'dd>", "lt<HH':'mm>", "ld<uuuu'-'MM'-'dd>'T'lt<HH':'mm>", "l<uuuu'-'MM'-'dd'T'HH':'mm>", "ld<d>", "lt<t>"]
+FIELD_SPECS = ["c", "'('c')'", "g", "uuuu", "yyyy", "yy", "MM", "MMM", "MMMM", "dd", "ddd", "dddd", "HH", "hh", "mm", "ss", "tt", "t", "FFF", "fff", ";FFF", ".FFF"]
+
+
+def check_embedded_conflicts(case):
+    """LocalDateTime patterns that combine an embedded date / time / date-time pattern with one more field: creation
+    raises InvalidPatternError or the created pattern reads every text - also texts naming another calendar, in which
+    the embedded date may not exist - without raising (C08)"""
+    P, T = _P(), _T()
+    emb, field, after = case
+    text = f"{emb} {field}" if after else f"{field} {emb}"
+    try:
+        pat = T.LocalDateTimePattern.create_with_invariant_culture(text)
+    except T.InvalidPatternError:
+        return None
+    except Exception as e:  # noqa: BLE001
+        return {"key": "create-raises@embedded", "what": f"LocalDateTimePattern.create({text!r}) raised {type(e).__name__}: {e}"}
+    texts = []
+    for v in (P.LocalDateTime(2024, 1, 31, 10, 15, 0), P.LocalDateTime(170, 1, 31, 0, 0, 0), P.LocalDateTime(1400, 12, 30, 23, 59, 0), P.LocalDateTime(9999, 12, 31, 13, 0, 0)):
+        try:
+            t = pat.format(v)
+        except Exception as e:  # noqa: BLE001
+            return {"key": "format-raises@embedded", "what": f"LocalDateTimePattern {text!r}: format({v!r}) raised {type(e).__name__}: {e}"}
+        texts.append(t)
+        if "ISO" in t:
+            texts += [t.replace("ISO", cid) for cid in P.CalendarSystem.ids]
+    for t in texts:
+        try:
+            r = pat.parse(t)
+        except Exception as e:  # noqa: BLE001
+            return {"key": "parse-raises@embedded", "what": f"LocalDateTimePattern {text!r}: parse({t!r}) raised {type(e).__name__}: {e}"}
+        if r.success:
+            v = r.value
+            cal = v.calendar
+            try:
+                P.LocalDate(v.year, v.month, v.day, cal)
+            except Exception as e:  # noqa: BLE001
+                return {"key": "parse-success-invalid@embedded", "what": f"LocalDateTimePattern {text!r}: parse({t!r}) succeeded with {v.year}-{v.month}-{v.day} in {cal.id}, which is not a date ({e})"}
+    return None
+
+
+def check_short_month_days(case):
+    """a day of month beyond the month's length (but below 29) in calendars with short months, calendar from the
+    template or from the c specifier: a failure result, never a success carrying a date that does not exist (C08)"""
+    P, T = _P(), _T()
+    cal_id, how = case
+    cal = P.CalendarSystem.for_id(cal_id)
+    out = []
+    y = min(max(cal.min_year, 5), cal.max_year)
+    for year in sorted({y, y + 1, y + 2, y + 3, cal.max_year}):
+        if not (cal.min_year <= year <= cal.max_year):
+            continue
+        for m in range(1, cal.get_months_in_year(year) + 1):
+            n = cal.get_days_in_month(year, m)
+            for d in sorted({n, n + 1, n + 2, 20, 28, 29, 30, 31, 32}):
+                out.append((year, m, d, d <= n))
+    if how == "template":
+        pat = T.LocalDatePattern.create_with_invariant_culture("uuuu-MM-dd").with_calendar(cal)
+        mk = lambda yy, m, d: f"{yy:04d}-{m:02d}-{d:02d}"  # noqa: E731
+    else:
+        pat = T.LocalDatePattern.create_with_invariant_culture("uuuu-MM-dd c")
+        mk = lambda yy, m, d: f"{yy:04d}-{m:02d}-{d:02d} {cal.id}"  # noqa: E731
+    for yy, m, d, valid in out:
+        txt = mk(yy, m, d)
+        try:
+            r = pat.parse(txt)
+        except Exception as e:  # noqa: BLE001
+            return {"key": "parse-raises@short-month", "what": f"LocalDatePattern ({how}, {cal.id}): parse({txt!r}) raised {type(e).__name__}: {e}"}
+        if r.success != valid:
+            return {"key": "day-of-month-range@short-month", "what": f"LocalDatePattern ({how}, {cal.id}): parse({txt!r}) {'succeeded' if r.success else 'failed'}; "
+                    f"month {m} of {yy} has {cal.get_days_in_month(yy, m)} days" + (f" (value: year={r.value.year} month={r.value.month} day={r.value.day})" if r.success else f" ({r.exception})")}
+        if r.success and (r.value.year, r.value.month, r.value.day) != (yy, m, d):
+            return {"key": "day-of-month-range@short-month", "what": f"LocalDatePattern ({how}, {cal.id}): parse({txt!r}) gave {r.value!r}"}
+    return None
+
+
 def cases_c07(ctx):
     rng = ctx.rng
     mod, bcl = [], []
@@ -371,3 +447,7 @@ def cases_c08_more(ctx):
     meta = [(ty, sp, m) for ty, sp in specs for m in META_TAILS]
     h24 = [(i, how) for i in P.CalendarSystem.ids for how in ("template", "c")]
     return meta, h24
+
+
+def cases_c08_embedded(ctx):
+    return [(e, f, a) for e in EMBEDDED for f in FIELD_SPECS for a in (True, False)]
